@@ -285,6 +285,46 @@ def run_line(sc):
     return (f"run {sc['until']} {sc['max_loop']} {int(sc['lazy'])} {'-' if rt is None else rt} {int(bool(sc.get('rt_strict')))} 0")
 
 
+# ------------------------------------------------------------------ the D7 class
+
+def common_len(a, b):
+    n = 0
+    while n < len(a) and n < len(b) and a[n] == b[n]:
+        n += 1
+    return n
+
+
+def nonuniform_cutoff(sc: dict, triggers_only: bool) -> bool:
+    """True iff two paths between the same pair of simulators (or two cycles through one simulator)
+    have different cutoffs, i.e. one of them leaves the common group and re-enters it (finding D7)."""
+    n = len(sc["sims"])
+    INF = 10 ** 6
+    lo = [[INF] * n for _ in range(n)]      # min over paths of the path's cutoff
+    hi = [[0] * n for _ in range(n)]        # max over paths of the path's cutoff
+    for c in sc["connects"]:
+        if triggers_only and not is_trigger(sc["sims"][c["dst"]]["type"], c["dattr"]):
+            continue
+        cut = common_len(sc["sims"][c["src"]]["group"], sc["sims"][c["dst"]]["group"]) + 1
+        a, b = c["src"], c["dst"]
+        lo[a][b] = min(lo[a][b], cut)
+        hi[a][b] = max(hi[a][b], cut)
+    for k in range(n):
+        for i in range(n):
+            for j in range(n):
+                if lo[i][k] < INF and lo[k][j] < INF:
+                    lo[i][j] = min(lo[i][j], min(lo[i][k], lo[k][j]))
+                    hi[i][j] = max(hi[i][j], min(hi[i][k], hi[k][j]))
+    # iterate to a fixpoint (paths through repeated vertices)
+    for _ in range(n):
+        for k in range(n):
+            for i in range(n):
+                for j in range(n):
+                    if lo[i][k] < INF and lo[k][j] < INF:
+                        lo[i][j] = min(lo[i][j], min(lo[i][k], lo[k][j]))
+                        hi[i][j] = max(hi[i][j], min(hi[i][k], hi[k][j]))
+    return any(lo[i][j] < INF and lo[i][j] != hi[i][j] for i in range(n) for j in range(n))
+
+
 # ------------------------------------------------------------------ one comparison
 
 def run_impl(sc: dict, sched_seed: int):
@@ -333,6 +373,10 @@ def compare(driver, sc: dict, sched_seed: int):
         elif action[0] == "deadlock":
             continue
         impl_obs.append(canon_obs(status, [e for e in events if e[0] != "set_data"]))
+        if action[0] == "start" and sc.get("rt") is None:
+            # the configuration must satisfy the hypotheses of the scheduler theorems
+            lines.append("wf")
+            impl_obs.append("wf")
     # a deadlock is reported on the last real action
     if c.deadlock and impl_obs:
         for j in range(len(impl_obs) - 1, -1, -1):
@@ -348,6 +392,10 @@ def compare(driver, sc: dict, sched_seed: int):
         if want is None:
             continue
         cm, ci = canon_model(got), canon_impl(want)
+        if want == "wf" and got == "not-wf" and nonuniform_cutoff(sc, True):
+            # outside the theorems' hypotheses for the recorded reason (finding D7); behaviour is still compared
+            sc["_d7"] = True
+            continue
         if cm.startswith("failed") and ci.startswith("failed"):
             # which other simulators had already begun a step in the failing batch depends on the
             # task order inside the batch; only the error itself is compared
